@@ -90,6 +90,13 @@ async def check_dispatch(case, rec, ctx):
                                                      session_setup=session_setup)
         finally:
             d = d or os.getcwd()
+        if instruments and instruments[-1].findings:
+            # the build was aborted at the first finding (records[-1] has a serve error then)
+            sig, msg = instruments[-1].findings[0]
+            i = len(records) - 1
+            raise Violation(f"{PROPERTY}/{sig}",
+                            f"stage {i}: {msg}; chaos {case['stages'][i].get('chaos')}; edits "
+                            f"{[s['edit'] for s in case['stages']]}")
         for i, r in enumerate(records):
             check_serve_health(PROPERTY, r, i)
     finally:
